@@ -61,6 +61,46 @@ Definition is_scalar (v : pyval) : bool :=
   | _ => false
   end.
 
+(* first_err_string restricted to the parameter indices in E *)
+Fixpoint first_err_string_at (E : list nat) (i : nat) (l : list pyval) : res (option pyval) :=
+  match l with
+  | [] => Ok None
+  | a :: l' =>
+      if in_idx i E then
+        match a with
+        | VStr _ => c <- py_in a excelutil.c_ERROR_CODES ;;
+                    if c then Ok (Some a) else first_err_string_at E (S i) l'
+        | _ => first_err_string_at E (S i) l'
+        end
+      else first_err_string_at E (S i) l'
+  end.
+
+(* the general form: err_str_params = E (a list of indices) *)
+Definition wrap_gen (S N E : list nat) (f : list pyval -> res pyval) (args : list pyval)
+  : res pyval :=
+  if negb (forallb is_scalar args) then Raise Unmodelled else
+  a1 <- map_idx (fun i a => if in_idx i S then excelutil.f_coerce_to_string a else Ok a) 0 args ;;
+  e1 <- first_code S 0 a1 ;;
+  match e1 with
+  | Some e => Ok e
+  | None =>
+      a2 <- map_idx (fun i a => if in_idx i N
+                                then excelutil.f_coerce_to_number py_fuel a (VBool true)
+                                else Ok a) 0 a1 ;;
+      e2 <- first_code N 0 a2 ;;
+      match e2 with
+      | Some e => Ok e
+      | None =>
+          nn <- any_not_number N 0 a2 ;;
+          if nn then Ok excelutil.c_VALUE_ERROR else
+          e3 <- first_err_string_at E 0 a2 ;;
+          match e3 with
+          | Some e => Ok e
+          | None => f a2
+          end
+      end
+  end.
+
 Definition wrap (S N : list nat) (f : list pyval -> res pyval) (args : list pyval)
   : res pyval :=
   if negb (forallb is_scalar args) then Raise Unmodelled else
